@@ -240,8 +240,11 @@ func (rpt *Report) newGraph(nodes graph.NodeSet) *graph.Graph {
 
 	// Clean up file paths using heuristics.
 	prof := rpt.prof
-	for _, f := range prof.Function {
-		f.Filename = trimPath(f.Filename, o.TrimPath, o.SourcePath)
+	if !rpt.pathsTrimmed {
+		for _, f := range prof.Function {
+			f.Filename = trimPath(f.Filename, o.TrimPath, o.SourcePath)
+		}
+		rpt.pathsTrimmed = true
 	}
 	// Removes all numeric tags except for the bytes tag prior
 	// to making graph.
@@ -1281,8 +1284,8 @@ func New(prof *profile.Profile, o *Options) *Report {
 		}
 		return measurement.ScaledLabel(v, o.SampleUnit, o.OutputUnit)
 	}
-	return &Report{prof, computeTotal(prof, o.SampleValue, o.SampleMeanDivisor),
-		o, format}
+	return &Report{prof: prof, total: computeTotal(prof, o.SampleValue, o.SampleMeanDivisor),
+		options: o, formatValue: format}
 }
 
 // NewDefault builds a new report indexing the last sample value
@@ -1339,6 +1342,11 @@ type Report struct {
 	total       int64
 	options     *Options
 	formatValue func(int64) string
+
+	// pathsTrimmed records that the file names of prof were already
+	// cleaned up: trimming is not idempotent and the graph is rebuilt
+	// several times while it is being trimmed.
+	pathsTrimmed bool
 }
 
 // Total returns the total number of samples in a report.
